@@ -8,10 +8,11 @@
    as it is (default arm of the type switch, stranymap.go:76), so the same map
    object can be held by several trees and by the caller.  Here a value is a
    leaf or a reference [SMap form m] to object m of the store (the data types of
-   Spec/StrAnyMapStore.v); the pointer cells of *map / **map are never written
-   by stranymap.go, so a holding form is part of the reference and only map
-   objects have identity.  Nil holders, string / byte memory and origins are the
-   business of Model/StrAnyMap.v and are left out here.
+   Spec/StrAnyMapStore.v); the pointer cells of *map / **map are written by
+   stranymap.go only to replace a nil map (SetWithBuffer, CopyTo), and nil
+   holders are left out here, so a holding form is part of the reference and
+   only map objects have identity.  Nil holders, string / byte memory and
+   origins are the business of Model/StrAnyMap.v.
 
    Every function follows the statements of the Go method: delete(m, k) for
    every key is [put st m []], m[k] = v is [put st m (supsert k v (obj st m))]
